@@ -1077,7 +1077,7 @@ impl Prop for C18P {
         "C18"
     }
     fn rule(&self) -> String {
-        "libraries built with the programmatic API (Module::new, Type::clone/copy::<Val<Mk<N>>> over 6 marker types, Function::new over closures of 7 signature shapes mentioning marker types / Option / List / Result / Verdict of them, Constant::new, Impl::new, Use::new) as random trees (depth <= 3) in random item order, registered by 1-2 add calls, optionally with one injected defect (invalid name, identifier plus trivia, use of a missing path, empty use path, function mentioning an unregistered type; duplicate names and doubly registered types arise from the small name pools); oracle: a registry model (five passes, scopes, name tables) predicts Ok/Err for each add call, the real calls must agree and never panic; after success a generated script calls every function, constant, method and static method by its declared path and checks the identity tag, and an undeclared path must not compile. Non-trivial: a function at module depth >= 2 or an impl block is present, or the library is refused; distinct by library description".into()
+        "libraries built with the programmatic API (Module::new, Type::clone/copy::<Val<Mk<N>>> over 6 marker types, Function::new over closures of 7 signature shapes mentioning marker types / Option / List / Result / Verdict of them, Constant::new, Impl::new, Use::new) as random trees (depth <= 3) in random item order, registered by 1-2 add calls, optionally with one injected defect (invalid name, identifier plus trivia, use of a missing path, empty use path, function mentioning an unregistered type, impl block without functions for an unregistered type; duplicate names and doubly registered types arise from the small name pools); oracle: a registry model (five passes, scopes, name tables) predicts Ok/Err for each add call, the real calls must agree and never panic; after success a generated script calls every function, constant, method and static method by its declared path and checks the identity tag, and an undeclared path must not compile; after a registration whose outcome the statement leaves open (a use of a missing path) every name a use declaration introduces is probed from scripts in four positions: a panic is a failure. Non-trivial: a function at module depth >= 2 or an impl block is present, or the library is refused; distinct by library description".into()
     }
     fn assumptions(&self) -> Vec<String> {
         vec![
